@@ -67,6 +67,9 @@ mod proofs {
         for f in ('lookup_can_derive_debug', 'lookup_can_derive_default', 'lookup_can_derive_hash', 'lookup_can_derive_partialeq_or_partialord', 'lookup_can_derive_copy'):
             lookups.append(extract(cx, r'^    pub\(crate\) fn %s<\s*Id: Into<ItemId>' % f, what=f))
         lookups.append(extract(cx, r'^    pub\(crate\) fn lookup_has_float<Id: Into<ItemId>>\(', what='lookup_has_float'))
+        lookups.append(extract(cx, r'^    pub\(crate\) fn lookup_has_type_param_in_array<Id: Into<ItemId>>\(', what='lookup_has_type_param_in_array'))
+        computes = [extract(cx, r'^    fn %s\(&mut self\) \{' % f, what=f) for f in ('compute_cannot_derive_debug', 'compute_cannot_derive_default', 'compute_cannot_derive_copy', 'compute_cannot_derive_hash',
+                                                                                         'compute_cannot_derive_partialord_partialeq_or_eq', 'compute_has_type_param_in_array', 'compute_has_float')]
         gates_t = []
         for tr in ('Debug', 'Default', 'Copy', 'Hash', 'PartialOrd', 'PartialEq', 'Eq', 'Ord'):
             gates_t.append(extract(cx, r'^impl<T> CanDerive%s for T$' % tr, what='impl CanDerive%s for T' % tr))
@@ -85,12 +88,13 @@ mod proofs {
             meths.append(entry[mm.end():match_brace(entry, mm.end() - 1) - 1])
         meths_t = '\n'.join(meths)
         h = open(os.path.join(G, 'harness', 'c08_gates.rs')).read().replace('/*DERIVE_OPTION_METHODS*/', meths_t)
-        h = h.replace('/*LOOKUPS*/', '\n'.join(lookups)).replace('/*IR_DERIVE*/', ird).replace('/*GATES*/', '\n'.join(gates_t)).replace('/*DERIVES_OF_ITEM*/', doi)
+        h = h.replace('/*LOOKUPS*/', '\n'.join(lookups)).replace('/*IR_DERIVE*/', ird).replace('/*GATES*/', '\n'.join(gates_t)).replace('/*DERIVES_OF_ITEM*/', doi).replace('/*COMPUTES*/', '\n'.join(computes))
         kk = Kernel(name='gates')
         kk.files = {'src/lib.rs': h}
         kk.harnesses = [H('option_gates_and_float_exclusion', desc='impl CanDerive* for T x lookup_*: all 2^8 option combinations, all analysis answers; Eq/Ord need PartialEq == Yes and no float; Copy needs no type parameter in an array', sample='2^8 options x analysis answers'),
                         H('comparison_derive_options_stay_closed_under_supertraits', desc='Builder::{derive_partialord, derive_ord, derive_partialeq, derive_eq} (real methods): one call from any closed option state leaves it closed (Ord => Eq and PartialOrd, PartialOrd => PartialEq, Eq => PartialEq) - inductive step over every call sequence', sample='4 methods x on/off x every closed state'),
                         H('derived_set_is_closed_under_supertraits', desc='derives_of_item on closed options: the derived set never contains Ord without Eq / PartialOrd, PartialOrd or Eq without PartialEq, Copy without Clone', sample='options x answers x annotations x packed'),
+                        H('every_analysis_a_consumer_can_ask_for_has_been_computed', desc='the seven compute_* functions of BindgenContext (real text) then every lookup a consumer reaches under the same options (option gates, manual Debug impl, manual PartialEq decision): no lookup unwraps an analysis that was skipped', sample='all closed option sets x impl_debug x impl_partialeq'),
                         H('derive_set_assembly', desc='derives_of_item: Clone iff Copy, packed and not Copy => nothing, annotations veto Copy/Debug/Default', sample='options x answers x annotations x packed')]
         kk.encoded = [enc('options/mod.rs', 'options! derive_partialord / derive_ord / derive_partialeq / derive_eq: methods blocks', meths_t) if False else {'file': 'bindgen/options/mod.rs', 'item': 'options! derive_partialord / derive_ord / derive_partialeq / derive_eq: methods blocks', 'sha256': sha(meths_t), 'lines': None}, enc('ir/context.rs', 'impl CanDerive{Debug,Default,Copy,Hash,PartialOrd,PartialEq,Eq,Ord} for T', '\n'.join(gates_t)), enc('ir/context.rs', 'lookup_can_derive_* / lookup_has_float', '\n'.join(lookups)),
                       enc('codegen/mod.rs', 'fn derives_of_item', doi), enc('ir/derive.rs', 'whole file', rd('ir/derive.rs'))]
@@ -102,8 +106,8 @@ mod proofs {
         peq = strip_uses(strip_inner(rd('codegen/impl_partialeq.rs')))
         # -- impl_debug.rs: the recursive `impl ImplDebug for Item` is instantiated once per alias hop (no recursion left)
         blk = extract(dbg, r"^impl<'a> ImplDebug<'a> for Item \{", what='impl ImplDebug for Item')
-        if blk.count('ctx.resolve_item(') != 1 or '.impl_debug(ctx, name)' not in blk:
-            raise SliceError('impl ImplDebug for Item: expected exactly one recursive call through ctx.resolve_item(..).impl_debug(ctx, name)')
+        if blk.count('ctx.resolve_item(') < 1 or '.impl_debug(ctx, name)' not in blk:
+            raise SliceError('impl ImplDebug for Item: expected recursive calls through ctx.resolve_item(..).impl_debug(ctx, name)')
         fdb = extract(dbg, r"^impl ImplDebug<'_> for FieldData \{", what='impl ImplDebug for FieldData')
         if fdb.count('ctx.resolve_item(') != 1:
             raise SliceError('impl ImplDebug for FieldData: expected exactly one ctx.resolve_item(..)')
